@@ -13,14 +13,20 @@ pub fn use_def(
     let mut ud = HashMap::new();
 
     for location in rd.keys() {
-        let defs = match location.function_location().apply(function).unwrap() {
+        let rfl = location.function_location().apply(function).unwrap();
+        // The definitions which reach this location before it is executed
+        let rd_in = reaching_definitions::reaching_definitions_in(
+            &rd,
+            &il::RefProgramLocation::new(function, rfl.clone()),
+        )?;
+        let defs = match rfl {
             il::RefFunctionLocation::Instruction(_, instruction) => instruction
                 .operation()
                 .scalars_read()
                 .into_iter()
                 .flatten()
                 .fold(LocationSet::new(), |mut defs, scalar_read| {
-                    rd[location].locations().iter().for_each(|rd| {
+                    rd_in.locations().iter().for_each(|rd| {
                         rd.function_location()
                             .apply(function)
                             .unwrap()
@@ -44,7 +50,7 @@ pub fn use_def(
                     condition.scalars().into_iter().fold(
                         LocationSet::new(),
                         |mut defs, scalar_read| {
-                            rd[location].locations().iter().for_each(|rd| {
+                            rd_in.locations().iter().for_each(|rd| {
                                 if let Some(scalars_written) = rd
                                     .function_location()
                                     .apply(function)
